@@ -363,7 +363,7 @@ impl<T> State<T> {
             Side::Receiver => self.sender.wake(),
         }
 
-        let was_open = self.open.swap(false, Ordering::SeqCst);
+        self.open.store(false, Ordering::SeqCst);
 
         // make sure the peer is notified before fully dropping the contents
         match side {
@@ -371,7 +371,11 @@ impl<T> State<T> {
             Side::Receiver => self.sender.wake(),
         }
 
-        if !was_open {
+        // The header must not be touched after this point, unless we are the last side to get
+        // here: the peer is free to deallocate it as soon as it observes `released == true`.
+        let is_last = self.released.swap(true, Ordering::AcqRel);
+
+        if is_last {
             unsafe {
                 // Safety: we synchronization closing between the two peers through atomic
                 // variables. At this point both sides have agreed on its final state.
@@ -485,6 +489,9 @@ pub struct Header<T> {
     head: CachePadded<AtomicUsize>,
     tail: CachePadded<AtomicUsize>,
     open: CachePadded<AtomicBool>,
+    /// Set by the first side that has finished closing; the side that finds it set frees the
+    /// allocation
+    released: AtomicBool,
     pub receiver: AtomicWaker,
     pub sender: AtomicWaker,
     data: PhantomData<T>,
@@ -526,6 +533,7 @@ impl<T> Header<T> {
             sender: AtomicWaker::new(),
             receiver: AtomicWaker::new(),
             open: CachePadded::new(AtomicBool::new(true)),
+            released: AtomicBool::new(false),
             data: PhantomData,
         }
     }
